@@ -884,9 +884,11 @@ pub fn run(args: &Args, rec: &mut Recorder) {
         let mut a2ml_inc: Option<(String, String)> = None;
         if rng.chance(1, 4) {
             let inc_text = "struct inc_t { uint; ulong; };\n";
-            let quoted = rng.coin();
+            let quoted_at_will = rng.coin();
             // (a name with "/end" in it: the raw A2ML text ends at /end A2ML, not at any /end...)
-            let name = *rng.pick(&["sub/types.aml", "sub/endian.aml", "end/types.aml"]);
+            // (in a quoted name any character may occur, as in a quoted A2L-level directive)
+            let name = *rng.pick(&["sub/types.aml", "sub/endian.aml", "end/types.aml", "sub/my-types.aml", "sub/my types (v2).aml"]);
+            let quoted = quoted_at_will || name.contains('-') || name.contains(' ');
             let directive = if quoted { format!("/include \"{name}\"") } else { format!("/include {name}") };
             let a2ml_text = format!("\n {directive}\n block \"IF_DATA\" taggedunion {{ \"INCX\" struct inc_t; }};\n");
             let mut a2ml = Elem::new("A2ML", true, false);
